@@ -3,6 +3,7 @@ use crate::alloc;
 use crate::child::{self, Case, ChildOut};
 use crate::io::CountingWriter;
 use crate::probe::{cm, cname, probe_deser, vm, vname, Outcome, Probe};
+use crate::common::bud;
 use crate::tv::*;
 use ark_ff::BigInt;
 use ark_serialize::{
@@ -94,6 +95,7 @@ pub const REQUIRED: &[&str] = &[
     "value: multi-byte UTF-8",
     "wrapper: pinned mode differs from outer mode",
     "serialize-only: Rc / & / &mut / &[T]",
+    "validation reaches container elements",
 ];
 
 pub fn items(args: &Args) -> Vec<Item> {
@@ -187,7 +189,7 @@ fn judge(rep: &mut Report, tname: &str, site: &str, what: &str, must_err: bool, 
 fn run_type<T: Tv>(idx: usize, rep: &mut Report, rng: &mut Rng, args: &Args) {
     let tname = T::tname();
     rep.config(&tname);
-    let nvals = args.pick(32, 600);
+    let nvals = bud(args, 32, 600);
     let mut pend: Vec<Pending> = vec![];
     let hostile_ok = T::hostile_ok();
     let probe: &dyn Fn(&[u8], Compress, Validate) -> Probe = &|b, c, v| probe_deser::<T>(b, c, v, b.len()).1;
@@ -291,7 +293,7 @@ fn run_type<T: Tv>(idx: usize, rep: &mut Report, rng: &mut Rng, args: &Args) {
     }
     // ---- uniform bytes (child: a random prefix is almost surely an oversize length)
     if let (true, Some(site)) = (hostile_ok, homogeneous.clone()) {
-        let n = args.pick(48, 800);
+        let n = bud(args, 48, 800);
         for k in 0..n {
             let len = match k % 4 {
                 0 => rng.next_u32() as usize % 16,
@@ -376,7 +378,7 @@ fn malformed(
     // bool bytes 2..255
     let bool_marks: Vec<usize> = e.marks.iter().filter(|m| matches!(m.kind, MarkKind::Bool)).map(|m| m.pos).collect();
     if !bool_marks.is_empty() {
-        let picks = bool_marks.len().min(args.pick(3, 6));
+        let picks = bool_marks.len().min(bud(args, 3, 6));
         for j in 0..picks {
             let pos = if j == 0 { bool_marks[0] } else { bool_marks[rng.next_u32() as usize % bool_marks.len()] };
             let vals: Vec<u8> = if !args.quick() || (round == 0 && j == 0) {
@@ -423,11 +425,11 @@ fn malformed(
     // hostile length prefixes (child process). The input is cut right after the tampered container, so
     // that everything before it and inside it parses exactly as in the valid encoding and only the
     // tampered container itself can react to its prefix (exact attribution).
-    if round >= args.pick(3, 12) {
+    if round >= bud(args, 3, 12) {
         return;
     }
     let len_marks: Vec<&Mark> = e.marks.iter().filter(|m| matches!(m.kind, MarkKind::Len { .. })).collect();
-    let max_marks = args.pick(3, 8);
+    let max_marks = bud(args, 3, 8);
     let chosen: Vec<&Mark> = if len_marks.len() <= max_marks {
         len_marks
     } else {
@@ -470,7 +472,7 @@ fn malformed(
     // bit flips of the valid encoding (child); only for types whose length-prefixed containers are all of
     // one kind, so that a misparse after the flip cannot be blamed on the wrong container
     if hostile_ok && homogeneous.is_some() && n > 0 {
-        for _ in 0..args.pick(6, 12) {
+        for _ in 0..bud(args, 6, 12) {
             let bit = rng.next_u32() as usize % (8 * n);
             let mut m = b.clone();
             m[bit / 8] ^= 1 << (bit % 8);
@@ -597,7 +599,7 @@ fn ser_only_t<T: Tv + Clone>(rep: &mut Report, rng: &mut Rng, n: usize) {
 }
 
 fn serialize_only(rep: &mut Report, rng: &mut Rng, args: &Args) {
-    let n = args.pick(40, 1000);
+    let n = bud(args, 40, 1000);
     ser_only_t::<u8>(rep, rng, n);
     ser_only_t::<u64>(rep, rng, n);
     ser_only_t::<bool>(rep, rng, n);
@@ -712,6 +714,55 @@ fn wrapper_validation(rep: &mut Report, _rng: &mut Rng, _args: &Args) {
         one::<CompressedUnchecked<ToyPt>>(rep, "CompressedUnchecked", &bc, true, inside);
         one::<UncompressedChecked<ToyPt>>(rep, "UncompressedChecked", &bu, inside, inside);
         one::<UncompressedUnchecked<ToyPt>>(rep, "UncompressedUnchecked", &bu, true, inside);
-        // wrong pinned length: the compressed wrappers must not accept the 3-byte form as a whole
     }
+    // validation reaches the elements of every container (read unchecked, then validated as a batch):
+    // one element outside the subgroup makes the whole value invalid under Validate::Yes and is
+    // returned as is under Validate::No
+    fn cont<W: CanonicalDeserialize>(rep: &mut Report, name: &str, c: Compress, bytes: &[u8], has_bad: bool) {
+        for v in [Validate::Yes, Validate::No] {
+            let (_, p) = probe_deser::<W>(bytes, c, v, bytes.len());
+            rep.eval(digest(&(name, "elem-validation", bytes, c == Compress::Yes, v == Validate::Yes)), true);
+            rep.class("validation reaches container elements");
+            let must_accept = v == Validate::No || !has_bad;
+            let ok = matches!(p.outcome, Outcome::Ok);
+            if matches!(p.outcome, Outcome::Panic(_)) {
+                rep.violation(format!("ser/container/{name}/element-validation/panic"), json!({"bytes": hex_bytes(bytes), "outcome": format!("{:?}", p.outcome)}));
+            } else if ok != must_accept {
+                rep.violation(
+                    format!("ser/container/{name}/element-validation/{}", if must_accept { "rejected" } else { "accepts-invalid-element" }),
+                    json!({"container": name, "mode": cname(c), "validate": vname(v), "bytes": hex_bytes(bytes), "contains_point_outside_subgroup": has_bad,
+                           "outcome": format!("{:?}", p.outcome)}),
+                );
+            }
+        }
+    }
+    let good: Vec<(u64, u64)> = sub.iter().copied().take(6).collect();
+    for (k, bad) in outside.iter().take(12).enumerate() {
+        for c in [Compress::Yes, Compress::No] {
+            for has_bad in [true, false] {
+                let x = if has_bad { enc(*bad, c) } else { enc(good[(k + 3) % good.len()], c) };
+                let (g0, g1) = (enc(good[k % good.len()], c), enc(good[(k + 1) % good.len()], c));
+                let n = |k: u64| k.to_le_bytes().to_vec();
+                cont::<Vec<ToyPt>>(rep, "Vec", c, &[n(3), g0.clone(), x.clone(), g1.clone()].concat(), has_bad);
+                cont::<VecDeque<ToyPt>>(rep, "VecDeque", c, &[n(2), g0.clone(), x.clone()].concat(), has_bad);
+                cont::<LinkedList<ToyPt>>(rep, "LinkedList", c, &[n(2), x.clone(), g0.clone()].concat(), has_bad);
+                cont::<[ToyPt; 3]>(rep, "array", c, &[g0.clone(), g1.clone(), x.clone()].concat(), has_bad);
+                cont::<Option<ToyPt>>(rep, "Option", c, &[vec![1u8], x.clone()].concat(), has_bad);
+                cont::<(u8, ToyPt)>(rep, "tuple", c, &[vec![9u8], x.clone()].concat(), has_bad);
+                cont::<BTreeMap<u8, ToyPt>>(rep, "BTreeMap", c, &[n(2), vec![1u8], g0.clone(), vec![2u8], x.clone()].concat(), has_bad);
+                cont::<Arc<ToyPt>>(rep, "Arc", c, &x, has_bad);
+                cont::<Cow<'static, ToyPt>>(rep, "Cow", c, &x, has_bad);
+                cont::<Vec<Option<ToyPt>>>(rep, "Vec", c, &[n(2), vec![0u8], vec![1u8], x.clone()].concat(), has_bad);
+                cont::<PtS>(rep, "derive/nested-tuple", c, &[vec![5u8], g0.clone(), vec![6u8], x.clone()].concat(), has_bad);
+                cont::<GenS<ToyPt, ToyPt>>(rep, "derive/generic", c, &[g0.clone(), n(1), x.clone(), g1.clone(), g0.clone()].concat(), has_bad);
+            }
+        }
+    }
+}
+
+#[derive(CanonicalSerialize, CanonicalDeserialize)]
+struct PtS {
+    a: u8,
+    p: ToyPt,
+    q: (u8, (ToyPt,)),
 }
